@@ -24,12 +24,18 @@ H_tsink   == Cfg(1, <<1, 1>>, 2, 3, {}, {<<1, 1>>}, TRUE)
 H_tmid    == Cfg(2, <<1, 2, 1>>, 2, 2, {}, {<<1, 1>>}, FALSE)
 H_tunl    == Cfg(2, <<1, 99, 1>>, 1, 2, {}, {<<1, 2>>}, TRUE)
 H_ttwo    == Cfg(1, <<2, 2>>, 2, 2, {}, {<<1, 1>>, <<1, 2>>}, FALSE)   \* two racing throwers
+H_tsink2  == Cfg(1, <<1, 1>>, 2, 2, {}, {<<1, 1>>}, TRUE)
+H_lim2b   == Cfg(1, <<1, 2>>, 2, 2, {}, {}, FALSE)              \* one generator, limit-2 sink, never inline
+H_mix1    == Cfg(2, <<1, 99, 1>>, 1, 2, {}, {}, TRUE)
+H_4it     == Cfg(1, <<1, 1>>, 1, 4, {}, {}, TRUE)               \* inline depth limit reached: serial continuation force-queued
 H_s1      == Cfg(0, <<2>>, 2, 2, {}, {}, TRUE)                  \* one-stage pipeline
 
-S_hb1 == {H_ser2, H_ser_p1, H_ser_p0, H_ser_noi, H_s1}
-S_hb2 == {H_lim2, H_mix, H_unl_noi}
-S_hb3 == {H_tgen, H_tgen2, H_tsink, H_tunl, H_ttwo}
-S_hb4 == {H_ser3, H_lim2i, H_tmid}
+\* H_lim2, H_mix, H_tsink, H_ttwo (2 workers, everything parallel) exceed 10^7 states with hb and are not in any set
+\* quick: hb1 serial stages (~46k states), hb2 parallel / unlimited (~93k), hb3 exceptions (~11k); thorough: hb4 (~1.5M)
+S_hb1 == {H_ser2, H_ser_p1, H_ser_p0, H_ser_noi, H_4it, H_s1}
+S_hb2 == {H_lim2b, H_unl_noi}
+S_hb3 == {H_tgen, H_tgen2, H_tsink2, H_tunl}
+S_hb4 == {H_mix1, H_ser3, H_tmid, H_lim2i}
 S_smoke == {H_ser2}
 \* singletons (scratch runs, mutation table)
 S1_ser2 == {H_ser2}
@@ -48,4 +54,8 @@ S1_tmid == {H_tmid}
 S1_tunl == {H_tunl}
 S1_ttwo == {H_ttwo}
 S1_s1 == {H_s1}
+S1_4it == {H_4it}
+S1_tsink2 == {H_tsink2}
+S1_lim2b == {H_lim2b}
+S1_mix1 == {H_mix1}
 =============================================================================
